@@ -157,12 +157,20 @@ Definition S_local_legal : Prop :=
     (forall v, getb md v = true -> In v check /\ forall u, In u (succs gt v) -> In u check) ->
     skip_ok ext g md (fun v => memb v check) (fun _ => true).
 
+(** boolean well-formedness checks for the witness below *)
+Definition wfb (g : graph) (n : nat) : bool :=
+  Nat.eqb (length g) n && forallb (forallb (fun w => Nat.ltb w n)) g.
+Definition transposeb (g gt : graph) : bool :=
+  let n := length g in
+  wfb g n && wfb gt n &&
+  forallb (fun u => forallb (fun v => Bool.eqb (memb u (succs gt v)) (memb v (succs g u))) (seq 0 n)) (seq 0 n).
+
 (** DEFECT (refutation): the concrete model of [iterate] (flags decided as the code does)
     reaches an iteration that is local but not systolic; the counters are right but the
     neighbourhood function it records is not the sum of the sizes. *)
 Definition S_nf_refuted : Prop :=
   exists (g gt : graph) (c0 : list (list bool)),
-    is_transpose g gt /\ wf_graph g (length c0) /\
+    transposeb g gt = true /\ length g = length c0 /\
     let states := hb_run (list bool) bits_join bits_eqb [] bits_size false true g gt (length c0) c0 in
     let final := last states (init_state (list bool) [] c0) in
     a_curr _ (c_arr _ final) = sync_iter (list bool) bits_join [] g (length states) c0 /\
